@@ -4,12 +4,13 @@ EXTENDS QTypes, TLC
 CONSTANTS MaxBits, Ns
 VARIABLES w, x
 vars == <<w, x>>
-Operand(src, b, i, k, h, mk) == [src |-> src, bits |-> b, int |-> i, kn |-> k, hasmv |-> h, mvk |-> mk]
+Operand(src, b, i, k, h, mk) == [src |-> src, bits |-> b, int |-> i, kn |-> k, hasmv |-> h, mvk |-> mk, mvm |-> 1]
 Operands ==
   {Operand("bits", b, i, k, FALSE, 0) : b \in 2..MaxBits, i \in 0..2, k \in {0, 1}}
   \cup {Operand("relu", b, i, 0, FALSE, 0) : b \in 1..MaxBits, i \in 0..2}
   \cup {Operand(s, b, 0, 0, FALSE, 0) : s \in {"po2", "relu_po2"}, b \in 2..MaxBits}
   \cup {Operand(s, b, 0, 0, TRUE, mk) : s \in {"po2", "relu_po2"}, b \in 2..MaxBits, mk \in {-1, 0, 2}}
+  \cup {[Operand(s, b, 0, 0, TRUE, mk) EXCEPT !.mvm = 3] : s \in {"po2", "relu_po2"}, b \in 3..MaxBits, mk \in {-1, 0}}
   \cup {Operand(s, 1, 0, 0, FALSE, 0) : s \in {"ternary", "binary", "binary01"}}
 ValidOp(o) == (o.src = "po2" => Po2Eff(o) >= 0) /\ (o.src = "bits" => o.bits - o.kn >= 1)
 Init == w \in {o \in Operands : ValidOp(o)} /\ x \in {o \in Operands : ValidOp(o)}
@@ -17,7 +18,7 @@ Next == FALSE /\ UNCHANGED vars
 Spec == Init /\ [][Next]_vars
 Out == DesignMultiplier(QT(w), QT(x))
 \* ---- named deviations of the transcribed design from the properties (genuine defects, known_findings.json)
-SmallMaxPo2(o) == o.src \in {"po2", "relu_po2"} /\ o.hasmv /\ o.mvk <= 0            \* F-C16-1: get_exp vs max_value <= 1
+SmallMaxPo2(o) == o.src \in {"po2", "relu_po2"} /\ MvLeqOne(o)            \* F-C16-1: get_exp vs max_value <= 1
 Relu11Weight == w.src = "relu" /\ w.bits = 1 /\ w.int = 1                            \* F-C16-2
 MixedPo2Adder == {w.src, x.src} = {"po2", "relu_po2"}                                 \* F-C16-4
 MaxIsPow2(t) == t.po2 \/ t.mode \in {2, 3}                                            \* largest value is a full power of two
